@@ -31,7 +31,8 @@ def nmemb(name):
     c = cls(name); return c['N'] if c['K'] == 3 else 0
 B = {'Dispose': 6, 'Copy': 100, 'SetToZero': 100, 'vf_mem.*': 100, 'Count': 4, 'IsEqual': 6, 'h_step|mk.*|m_.*|obs_.*|scalar_arg|mutate|slot_fill': 9, 'Initialize': 6}
 # heap blocks are byte arrays: keep them field-sensitive up to 200 bytes (default 64), else kind tags stop being constants
-XC = ('--max-field-sensitivity-array-size', '200', '--object-bits', '10')
+XC = ()   # (--max-field-sensitivity-array-size 512 --object-bits 10 are engine defaults now)
+POWN = '_ZN6Qentem5Digit18powerOfNegativeTenIyEEvRT_j'; POWP = '_ZN6Qentem5Digit18powerOfPositiveTenIyEEvRT_j'
 STN = '_ZN6Qentem5Digit14stringToNumberIcEENS_11QNumberTypeERNS_9QNumber64EPKT_Rjj'
 def Q(pre, op, src=None, kf_only=None, stub=True, **kw):
     d = {'OP': OP[op]}
@@ -50,7 +51,7 @@ def Q(pre, op, src=None, kf_only=None, stub=True, **kw):
         for k in excl: d['KF_EXCL_' + k.replace('-', '_')] = 1
         if kf_only: d['KF_ONLY_' + kf_only.replace('-', '_')] = 1
     return Query(name, 'C12_value.cpp', 'h_step', d, bounds=B, default_unwind=6, rec_bounds={}, default_rec=3, timeout=300, mem_gb=8,
-                 leak=True, stubs=({STN: 'stub_strtonum'} if stub else {}), extra_cbmc=XC, kf_excl=excl, kf_only=(None if MAN else kf_only), **kw)
+                 leak=True, stubs=({STN: 'stub_strtonum'} if stub else {POWN: 'stub_pow', POWP: 'stub_pow'}), extra_cbmc=XC, kf_excl=excl, kf_only=(None if MAN else kf_only), **kw)
 def queries(tier):
     q = tier == 'quick'
     qs = []
